@@ -270,7 +270,7 @@ def check_leaf(ctx, g):
         b1 = add_code_block(bi, b"\x90\xff\xe0")                           # nop; jmp rax
         add_edge(ir.cfg, b1, add_proxy_block(m), ET.Branch, direct=False)
         blocks = [b1]
-    elif g["kind"] == "plain":
+    elif g["kind"] in ("plain", "debug-logger"):
         b1 = add_code_block(bi, b"\x90\x90")
         b2 = add_code_block(bi, b"\xc3")
         add_edge(ir.cfg, b1, b2, ET.Fallthrough)
@@ -320,14 +320,27 @@ def check_leaf(ctx, g):
             return "movl $%d, %%eax" % 0x5a5a5a
 
         the_patch = Patch.from_function(q, Constraints(clobbers_registers={"rax"}))
-    rc = RewritingContext(m, funcs if funcs is not None else gtirb_functions.Function.build_functions(m))
+    if g["kind"] == "debug-logger":
+        # a context whose logger is enabled for DEBUG (what a driver run with -vv hands over): logging is an observer
+        logging.disable(logging.NOTSET)
+        dbg = logging.getLogger("verif.c16.debug")
+        dbg.setLevel(logging.DEBUG)
+        dbg.propagate = False
+        if not dbg.handlers:
+            dbg.addHandler(logging.NullHandler())
+        rc = RewritingContext(m, gtirb_functions.Function.build_functions(m), logger=dbg)
+    else:
+        rc = RewritingContext(m, funcs if funcs is not None else gtirb_functions.Function.build_functions(m))
     if g["kind"] == "orphan":
         # the function in front is visited first and gets a patch too
         rc.insert_at(blocks[0], 0, Patch.from_function(patch_constraints()(lambda ictx: "nop")))
     if g["kind"] == "same-patch":
         rc.insert_at(blocks[0], 0, the_patch)
     rc.insert_at(target, 0, the_patch)
-    rc.apply()
+    try:
+        rc.apply()
+    finally:
+        logging.disable(logging.CRITICAL)
     text = b"".join(bytes(x.contents) for x in sorted(m.byte_intervals, key=lambda x: x.address))
     md = capstone.Cs(capstone.CS_ARCH_X86, capstone.CS_MODE_64)
     ins = [(i.mnemonic, i.op_str) for i in md.disasm(text, 0x1000)]
@@ -345,6 +358,15 @@ def check_leaf(ctx, g):
     if first_push is None or marker is None or first_push > marker:
         ctx.mismatch("the patch's prologue could not be located in %s" % (ins[:8],), g)
         return
+    # what the prologue pushed is popped again behind the patch body, and the red-zone step is undone
+    body_end = next((k for k in range(marker + 1, len(ins)) if ins[k][0] in ("ret", "jmp", "syscall", "call")), len(ins))
+    pushes = sum(1 for mn, _ in ins[:marker] if mn.startswith("push"))
+    pops = sum(1 for mn, _ in ins[marker + 1:body_end] if mn.startswith("pop"))
+    down = sum(1 for mn, op in ins[:marker] if mn == "lea" and "rsp" in op and "- 0x80" in op)
+    up = sum(1 for mn, op in ins[marker + 1:body_end] if mn == "lea" and "rsp" in op and "+ 0x80" in op)
+    if g["kind"] in ("plain", "debug-logger", "syscall") and (pushes != pops or down != up):
+        ctx.violation("C16:frame-not-undone", "%s: the prologue pushes %d registers and steps %d times over the red zone, behind the patch body %d are popped and %d steps undone: %s"
+                      % (g["kind"], pushes, down, pops, up, ins[:10]), g)
     skipped = any(mn == "lea" and "rsp" in op and "- 0x80" in op for mn, op in ins[:first_push])
     if g["kind"] == "shared" and not skipped:
         ctx.violation("C16:" + SIG_SHARED_LEAF, "a block shared by a leaf function and a function that calls: the patch pushes at rsp-8 "
@@ -354,8 +376,8 @@ def check_leaf(ctx, g):
 
 
 def run(ctx):
-    for k in range(ctx.budget(16, 48)):
-        check_leaf(ctx, {"leaf_case": True, "kind": ["syscall", "ijmp", "plain", "call", "orphan", "shared", "same-patch", "explicit"][k % 8]})
+    for k in range(ctx.budget(18, 54)):
+        check_leaf(ctx, {"leaf_case": True, "kind": ["syscall", "ijmp", "plain", "call", "orphan", "shared", "same-patch", "explicit", "debug-logger"][k % 9]})
     abis = _abi_objs()
     pending = []
     for abiname in ABIS:
